@@ -122,7 +122,11 @@ func (h chH) finish() {
 }
 
 // H-seq: every sequence of operations on a Channel over a source pre-filled with 4 values.
-func chSeq(length int) func() {
+func chSeq(length int) func() { return chSeqN(length, 7) }
+
+// chSeqN restricts the alphabet to its first n operations (Get, Get(cancelled), Commit, Rollback,
+// Buffer | Close, cancel): the transactional core can then be enumerated to a greater depth.
+func chSeqN(length, nops int) func() {
 	return func() {
 		ctx, cancel := context.WithCancel(context.Background())
 		defer cancel()
@@ -135,7 +139,7 @@ func chSeq(length int) func() {
 		avail, replay, closed := 4, 0, false
 		taken := 0
 		for i := 0; i < length; i++ {
-			switch vrt.Choose(7, 0) {
+			switch vrt.Choose(nops, 0) {
 			case 0:
 				if !closed && avail == 0 && replay == 0 {
 					continue // would poll forever: outside a sequential program
@@ -246,6 +250,9 @@ func init() {
 			Desc: fmt.Sprintf("every sequence of %d operations over {Get, Get(cancelled ctx), Commit, Rollback, Buffer, Close, cancel of the Channel's context} on a Channel whose source holds 4 values", l.n),
 			Opts: vrt.Options{Delay: true}, Run: chSeq(l.n), Check: channelCheck})
 	}
+	vrt.Register(&vrt.Scenario{Name: "H-txn7", Props: []string{"C13"}, Quick: 0, Thorough: 1,
+		Desc: "every sequence of 7 operations over {Get, Get(cancelled ctx), Commit, Rollback, Buffer} (rollback, partial re-read, rollback again, commit ...)",
+		Opts: vrt.Options{Delay: true}, Run: chSeqN(7, 5), Check: channelCheck})
 	vrt.Register(&vrt.Scenario{Name: "H-conc", Props: []string{"C13", "C11:race", "C12:goroutine-leak,close-"}, Quick: 3, Thorough: 5,
 		Desc: "T1: Get Get Commit, T2: Rollback Get, T3: Buffer - concurrently on one Channel", Opts: vrt.Options{Delay: true}, Run: chConc(false), Check: channelCheck})
 	vrt.Register(&vrt.Scenario{Name: "H-conc-close", Props: []string{"C13", "C11:race", "C12:goroutine-leak,close-"}, Quick: 3, Thorough: 5,
